@@ -48,7 +48,7 @@ Inductive out :=
                                       the step), 1 played, 2 looped, 3 completed, 4 stopped, 5 paused,
                                       6 resumed, 7 advanced, 8 stepped_back, 9 'updated' *)
 | OSet (light color start : Z)     (* light.color(color, key=context, start_time=start) *)
-| ORem (light : Z)                 (* `color: stop` in a step *)
+| ORem (light fade : Z)            (* `color: stop` in a step; fade (us) as given: -1 = None (the light's default) *)
 | OClear.                          (* show_stop_callback -> clear_context *)
 
 Definition total (r : rs) : Z := Z.of_nat (length (r_steps r)).
@@ -67,8 +67,14 @@ Definition do_stop (r : rs) : rs * list out :=
   else (mkRs (r_steps r) (r_speed4 r) (r_manual r) (r_running r) (r_idx r) (r_nst r) (r_loops r) true None,
         [OClear; OEv 4 0]).
 
-Definition step_outs (st : step) (start : Z) : list out :=
-  map (fun a => if snd a =? 0 then ORem (fst a) else OSet (fst a) (snd a) start) (s_acts st).
+(* one light action of a step: colour code 0 = `stop` (fade None), 6 = `stop-f250ms`, 7 = `stop-f0ms`,
+   everything else a colour *)
+Definition act_out (start : Z) (a : Z * Z) : out :=
+  if snd a =? 0 then ORem (fst a) (-1)
+  else if snd a =? 6 then ORem (fst a) 250000
+  else if snd a =? 7 then ORem (fst a) 0
+  else OSet (fst a) (snd a) start.
+Definition step_outs (st : step) (start : Z) : list out := map (act_out start) (s_acts st).
 
 Definition ttn (dur speed4 : Z) : Z := dur * 4 / speed4.
 
@@ -146,8 +152,16 @@ Definition apply_op (now : Z) (o : op) (r : rs) : rs * list out :=
            run_next [OEv 8 0] false (set_idx r1 (r_idx r1 - (n + 1)))
   end.
 
-(* ---- light stacks: only who owns an entry (key = show id) and its colour --------------------- *)
-Definition stack := list (Z * Z).          (* (show id, colour code), kept sorted by show id *)
+(* ---- light stacks: who owns an entry (key = show id), its colour, and the fade-out of a removed key -- *)
+(* mpf/devices/light.py: Light.stack, Light.color/_add_to_stack, remove_from_stack_by_key (with fade),
+   the per-key delay "remove_fade_<key>", _remove_fade_out; mpf/config_players/light_player.py:
+   _light_color / _light_remove / clear_context (its instance dict holds exactly the lights on which the
+   context has an entry that is not a fade-out).
+   An entry is (show id, colour code); colour -1 is a fade-out entry (dest_color None).  The list is kept
+   sorted by show id (the priority order of the real stack is C09's subject). *)
+Definition stack := list (Z * Z).
+
+Definition proj (sid : Z) (s : list (Z * Z)) : list (Z * Z) := filter (fun e => fst e =? sid) s.
 
 Definition rem_key (sid : Z) (s : stack) : stack := filter (fun e => negb (fst e =? sid)) s.
 
@@ -159,7 +173,38 @@ Fixpoint ins_key (sid c : Z) (s : stack) : stack :=
 
 Definition set_key (sid c : Z) (s : stack) : stack := ins_key sid c (rem_key sid s).
 
-Definition has_key (sid : Z) (s : stack) : bool := existsb (fun e => fst e =? sid) s.
+Definition has_key (sid : Z) (s : stack) : bool := match proj sid s with [] => false | _ => true end.
+
+Definition is_fading (e : Z * Z) : bool := snd e =? -1.
+
+(* a light: its default fade (us; Light.default_fade_ms), its stack, and the pending fade-out removal
+   delays (key, deadline) of its DelayManager (one per key: delay.reset replaces a pending one) *)
+Record light := mkLight { l_fade : Z; l_stack : stack; l_timers : list (Z * Z) }.
+
+(* the key has an entry that is not a fade-out (= the light is in the light player's instance dict of
+   that context) / has a fade-out entry *)
+Definition owns (sid : Z) (L : light) : bool := existsb (fun e => negb (is_fading e)) (proj sid (l_stack L)).
+Definition fading (sid : Z) (L : light) : bool := existsb is_fading (proj sid (l_stack L)).
+
+(* Light.color(color, key=context) *)
+Definition set_light (sid c : Z) (L : light) : light :=
+  mkLight (l_fade L) (set_key sid c (l_stack L)) (l_timers L).
+
+(* Light.remove_from_stack_by_key(key, fade_ms) at time [now]; fade < 0 = None = the light's default.
+   Key not on the stack: nothing.  The entry already is a fade-out, or no fade: removed at once.
+   Otherwise it is replaced by a fade-out entry and the removal delay of the key is (re)set to now+fade. *)
+Definition rem_fade (sid now fade : Z) (L : light) : light :=
+  let f := if fade <? 0 then l_fade L else fade in
+  if has_key sid (l_stack L) then
+    if owns sid L && (0 <? f) then
+      mkLight (l_fade L) (set_key sid (-1) (l_stack L)) (set_key sid (now + f) (l_timers L))
+    else mkLight (l_fade L) (rem_key sid (l_stack L)) (l_timers L)
+  else L.
+
+(* the removal delay of key [sid] expires: Light._remove_fade_out *)
+Definition fire_rem (sid : Z) (L : light) : light :=
+  mkLight (l_fade L) (filter (fun e => negb ((fst e =? sid) && is_fading e)) (l_stack L))
+          (rem_key sid (l_timers L)).
 
 Fixpoint upd_nth {A} (n : nat) (f : A -> A) (l : list A) : list A :=
   match l, n with
@@ -168,12 +213,12 @@ Fixpoint upd_nth {A} (n : nat) (f : A -> A) (l : list A) : list A :=
   | x :: l', S n' => x :: upd_nth n' f l'
   end.
 
-Definition lights := list stack.
+Definition lights := list light.
 
 Fixpoint lights_with (sid : Z) (k : Z) (ls : lights) : list Z :=
   match ls with
   | [] => []
-  | s :: ls' => (if has_key sid s then [k] else []) ++ lights_with sid (k + 1) ls'
+  | L :: ls' => (if owns sid L then [k] else []) ++ lights_with sid (k + 1) ls'
   end.
 
 (* rows of the observable trace: [show; time; kind; a; b; c] *)
@@ -182,9 +227,12 @@ Definition row := list Z.
 Definition apply_out (sid now : Z) (ls : lights) (o : out) : lights * list row :=
   match o with
   | OEv code arg => (ls, [[sid; now; code; arg; 0; 0]])
-  | OSet l c st => (upd_nth (Z.to_nat l) (set_key sid c) ls, [[sid; now; 10; l; c; st]])
-  | ORem l => (upd_nth (Z.to_nat l) (rem_key sid) ls, [[sid; now; 11; l; 0; 0]])
-  | OClear => (map (rem_key sid) ls, map (fun l => [sid; now; 12; l; 0; 0]) (lights_with sid 0 ls))
+  | OSet l c st =>
+      if c <=? 0 then (ls, [])          (* no such colour *)
+      else (upd_nth (Z.to_nat l) (set_light sid c) ls, [[sid; now; 10; l; c; st]])
+  | ORem l f => (upd_nth (Z.to_nat l) (rem_fade sid now f) ls, [[sid; now; 11; l; f; 0]])
+  | OClear => (map (fun L => if owns sid L then rem_fade sid now (-1) L else L) ls,
+               map (fun l => [sid; now; 12; l; 0; 0]) (lights_with sid 0 ls))
   end.
 
 Fixpoint apply_outs (sid now : Z) (ls : lights) (os : list out) : lights * list row :=
@@ -216,6 +264,10 @@ Definition world_play (now sid : Z) (c : cfg) (w : world) : world :=
   let '(ls, rows) := apply_outs sid now (w_lights w) os in
   mkW (upd_nth (Z.to_nat sid) (fun _ => Some r') (w_shows w)) ls (w_trace w ++ rows).
 
+(* the removal delay of key [sid] on light [k] expires at time d *)
+Definition world_fire (d k sid : Z) (w : world) : world :=
+  mkW (w_shows w) (upd_nth (Z.to_nat k) (fire_rem sid) (w_lights w)) (w_trace w ++ [[sid; d; 13; k; 0; 0]]).
+
 (* earliest pending timer with deadline <= t; ties: lowest show id (the observable per-show traces and
    the stacks do not depend on the order among different shows, see Lemmas: only key sid is touched) *)
 Fixpoint next_due (t : Z) (k : Z) (ss : list (option rs)) (best : option (Z * Z)) : option (Z * Z) :=
@@ -240,21 +292,58 @@ Fixpoint next_due (t : Z) (k : Z) (ss : list (option rs)) (best : option (Z * Z)
       next_due t (k + 1) ss' best'
   end.
 
+(* earliest pending removal delay of a light with deadline <= t *)
+Fixpoint min_timer (t : Z) (tm : list (Z * Z)) (best : option (Z * Z)) : option (Z * Z) :=
+  match tm with
+  | [] => best
+  | (sid, d) :: tm' =>
+      min_timer t tm'
+        (if d <=? t then
+           match best with
+           | Some (_, bd) => if d <? bd then Some (sid, d) else best
+           | None => Some (sid, d)
+           end
+         else best)
+  end.
+
+(* ... of all lights: (light, key, deadline); ties: lowest light index *)
+Fixpoint next_due_light (t k : Z) (ls : lights) (best : option (Z * Z * Z)) : option (Z * Z * Z) :=
+  match ls with
+  | [] => best
+  | L :: ls' =>
+      let best' :=
+        match min_timer t (l_timers L) None with
+        | Some (sid, d) =>
+            match best with
+            | Some (_, _, bd) => if d <? bd then Some (k, sid, d) else best
+            | None => Some (k, sid, d)
+            end
+        | None => best
+        end in
+      next_due_light t (k + 1) ls' best'
+  end.
+
+(* fire everything due at or before t in deadline order (at one instant: light delays first; the order at
+   one instant does not matter for what is observed: a removal delay only removes fade-out entries of its
+   key, a show only replaces / removes entries of its own key, and per-show rows are compared per kind) *)
 Fixpoint advance_to (fuel : nat) (t : Z) (w : world) : world :=
   match fuel with
   | O => w
   | S f =>
-      match next_due t 0 (w_shows w) None with
-      | Some (sid, d) => advance_to f t (world_op d sid Fire w)
-      | None => w
+      match next_due_light t 0 (w_lights w) None, next_due t 0 (w_shows w) None with
+      | Some (k, key, d), Some (sid, d2) =>
+          if d <=? d2 then advance_to f t (world_fire d k key w) else advance_to f t (world_op d2 sid Fire w)
+      | Some (k, key, d), None => advance_to f t (world_fire d k key w)
+      | None, Some (sid, d2) => advance_to f t (world_op d2 sid Fire w)
+      | None, None => w
       end
   end.
 
-(* user requests of a case: (time, show, request); UPlay plays the show's configuration *)
-Inductive uop := UPlay | UOp (o : op).
+(* user requests of a case: (time, show, request); UPlay plays the show's configuration; UProbe only looks *)
+Inductive uop := UPlay | UOp (o : op) | UProbe.
 
 Definition snapshot (w : world) : list (list Z) :=
-  map (fun s => flat_map (fun e => [fst e; snd e]) s) (w_lights w).
+  map (fun L => flat_map (fun e => [fst e; snd e]) (l_stack L)) (w_lights w).
 
 Fixpoint run_ops (fuel : nat) (cfgs : list cfg) (ops : list (Z * Z * uop)) (w : world)
          (snaps : list (list (list Z))) : world * list (list (list Z)) :=
@@ -268,6 +357,7 @@ Fixpoint run_ops (fuel : nat) (cfgs : list cfg) (ops : list (Z * Z * uop)) (w : 
                            | None => w1
                            end
                 | UOp o => world_op t sid o w1
+                | UProbe => w1
                 end in
       run_ops fuel cfgs ops' w2 (snaps ++ [snapshot w2])
   end.
@@ -279,30 +369,36 @@ Definition show_final (s : option rs) : list Z :=
                match r_timer r with Some (d, _) => d | None => -1 end]
   end.
 
-(* input of a correspondence case: configurations, requests (sorted by time), horizon, fuel *)
-Definition case_in := (list cfg * list (Z * Z * uop) * Z * Z)%type.
-(* output: per show event rows, per show light rows, stack snapshot after every request and at the
-   horizon, final state of every show *)
-Definition case_out := (list (list row) * list (list row) * list (list (list Z)) * list (list Z))%type.
+(* input of a correspondence case: configurations, default fade of every light (us), requests (sorted by
+   time), horizon, fuel *)
+Definition case_in := (list cfg * list Z * list (Z * Z * uop) * Z * Z)%type.
+(* output: per show event rows, per show light rows, per show fade-out-ended rows, stack snapshot after
+   every request and at the horizon, final state of every show *)
+Definition case_out :=
+  (list (list row) * list (list row) * list (list row) * list (list (list Z)) * list (list Z))%type.
 
-Definition is_light_row (r : row) : bool := 10 <=? nth 2 r 0.
+Definition row_kind (r : row) : Z := nth 2 r 0.
+Definition is_light_row (r : row) : bool := (10 <=? row_kind r) && (row_kind r <=? 12).
+Definition is_fade_row (r : row) : bool := row_kind r =? 13.
 Definition row_of (sid : Z) (r : row) : bool := nth 0 r (-1) =? sid.
 
 Fixpoint zrange (k : Z) (n : nat) : list Z :=
   match n with O => [] | S n' => k :: zrange (k + 1) n' end.
 
 Definition run (i : case_in) : case_out :=
-  let '(cfgs, ops, horizon, fuel) := i in
-  let w0 := mkW (map (fun _ => None) cfgs) (repeat [] 4) [] in
+  let '(cfgs, fades, ops, horizon, fuel) := i in
+  let w0 := mkW (map (fun _ => None) cfgs) (map (fun f => mkLight f [] []) fades) [] in
   let '(w1, snaps) := run_ops (Z.to_nat fuel) cfgs ops w0 [] in
   let w2 := advance_to (Z.to_nat fuel) horizon w1 in
   let sids := zrange 0 (length cfgs) in
-  (map (fun sid => filter (fun r => row_of sid r && negb (is_light_row r)) (w_trace w2)) sids,
+  (map (fun sid => filter (fun r => row_of sid r && (row_kind r <? 10)) (w_trace w2)) sids,
    map (fun sid => filter (fun r => row_of sid r && is_light_row r) (w_trace w2)) sids,
+   map (fun sid => filter (fun r => row_of sid r && is_fade_row r) (w_trace w2)) sids,
    snaps ++ [snapshot w2],
    map show_final (w_shows w2)).
 
 Definition out_eqb (a b : case_out) : bool :=
-  let '(e1, l1, s1, f1) := a in
-  let '(e2, l2, s2, f2) := b in
-  list_eqb zss_eqb e1 e2 && list_eqb zss_eqb l1 l2 && list_eqb zss_eqb s1 s2 && zss_eqb f1 f2.
+  let '(e1, l1, d1, s1, f1) := a in
+  let '(e2, l2, d2, s2, f2) := b in
+  list_eqb zss_eqb e1 e2 && list_eqb zss_eqb l1 l2 && list_eqb zss_eqb d1 d2 && list_eqb zss_eqb s1 s2 &&
+  zss_eqb f1 f2.
